@@ -3,12 +3,13 @@ from props.C03 import RL, SPEC as C03
 from props.C04 import SPEC as C04
 from props.stress import stress_extra
 
-RLSTRESS_D = ("harness/rlstress -only D: capacity 1 and a slow rate lookup; a request of a tracked, exhausted source runs together "
-              "with the first request of a new source; the four answers that follow must be those of one of the two sequential orders")
+RLSTRESS_D = ("harness/rlstress -only DF: (D) capacity 1 and a slow rate lookup; a request of a tracked, exhausted source runs together "
+              "with the first request of a new source; the four answers that follow must be those of one of the two sequential orders; "
+              "(F) connection limiter: 66000 sources hold one connection each, a source with fewer than its limit in flight is admitted all the same")
 
 SPEC = {
     "components": [RL, C04["components"][0]],
-    "extra": stress_extra("rlstress", "C14", ["-only", "D", "-rounds", "300"], ["-only", "D", "-rounds", "6000"], RLSTRESS_D),
+    "extra": stress_extra("rlstress", "C14", ["-only", "DF", "-rounds", "300"], ["-only", "DF", "-rounds", "6000"], RLSTRESS_D),
     "rule": "rate limiter: " + C03["rule"] + " | connection limiter: " + C04["rule"] +
             " | every source's decisions are also compared with a solo run of the IMPLEMENTATION | plus (support) " + RLSTRESS_D,
     "trusted_base": C03["trusted_base"] + C04["trusted_base"],
